@@ -116,13 +116,19 @@ Section PollLoop.
   | PMore.                        (* the schedule ended inside the loop *)
 
   (* signal step: pending() drains the pipe; every flagged signal is consumed (SIGWINCH queues a
-     Resize event), then a flagged termination signal makes poll return Err(Quit) *)
-  Definition sig_step (s : pstate) : pstate + pstate (* inl = continue, inr = Err(Quit) *) :=
+     Resize event), then a flagged termination signal makes poll return Err(Quit).  On a tty that
+     is gone the size query of the SIGWINCH step fails and its error is returned at once (a
+     termination signal flagged with it is then not reported; the next poll fails on the dead tty). *)
+  Definition sig_step (s : pstate) : pstate + (perr * pstate) (* inl = continue, inr = Err *) :=
     let s1 := mkP (io s) (events s) (pipe s) false false false (sig_closed s) (inq s)
                   (hup s) (saved s) (cur s) (g_owed_wake s) (g_owed_winch s) (g_arrived s)
                   (g_returned s) in
-    let s2 := if winch s then push s1 EvResize else s1 in
-    if termsig s then inr s2 else inl s2.
+    if winch s && hup s then
+      inr (Io, mkP (io s) (events s) (pipe s) false false false (sig_closed s) (inq s)
+                   (hup s) (saved s) (cur s) (g_owed_wake s) false (g_arrived s) (g_returned s))
+    else
+      let s2 := if winch s then push s1 EvResize else s1 in
+      if termsig s then inr (Quit, s2) else inl s2.
 
   (* waker step: read up to 1024 bytes, one Wake event if any byte was read *)
   Definition wake_step (s : pstate) : pstate :=
@@ -176,7 +182,7 @@ Section PollLoop.
     : (pres * pstate) + pstate :=
     let s2 := arrive_all s1 (r_sig r) in
     match (if sig_ready then sig_step s2 else inl s2) with
-    | inr sq => inl (PErr Quit, sq)
+    | inr (e, sq) => inl (PErr e, sq)
     | inl s3 =>
         let s4 := arrive_all s3 (r_wk r) in
         let s5 := if wk_ready then wake_step s4 else s4 in
